@@ -625,3 +625,14 @@ pub fn verif_parse_value(src: &str) -> (tag::Value, Vec<ParseError>, usize, Posi
     let pos = ps.position();
     (v, ps.take_warnings(), idx, pos)
 }
+
+/// Verification hook: run `Expression::convert_scopes` with the given scope names (outermost first).
+#[cfg(glass_easel_verif)]
+pub fn verif_convert_scopes(e: &mut expr::Expression, scopes: &[&str]) {
+    let pos = Position::default();
+    let scopes: Vec<_> = scopes
+        .iter()
+        .map(|x| (compact_str::CompactString::new(x), pos..pos))
+        .collect();
+    e.convert_scopes(&scopes);
+}
